@@ -360,6 +360,16 @@ def run_impl(case):
         idx = dict((k, v) for k, v in out["c"]["idx"])
         out["enum"] = [idx[i] for i in range(la, len(idx)) if i in idx]
         _try(out["c"], "trXt", lambda: _mat(c.transform(case["Xt"])))
+        # the left operand is used again: merged with a model over a sub-vocabulary of its own corpus
+        # (every pair of fitted models must merge like the concatenated fit, also after an earlier merge)
+        sub = [d for d in case["Xa"] if d][:1]
+        if sub:
+            try:
+                a2 = NgramVectorizer(ngram_behaviour=case["beh"]).fit(sub)
+                out["c2"] = _ngram_fitted(a + a2)
+                out["c2_sub"] = sub
+            except Exception as e:
+                out["c2_exc"] = _exc(e)
         return out
     if kind == "skipgram":
         from vectorizers import SkipgramVectorizer
@@ -797,6 +807,18 @@ def _oracle_add(case, o):
                                          f"counts of the tokens of both vocabularies {exp}"))
     if "trXt" in j and _by_label(j, j["trXt"]) != exp:
         fails.append(_F("add.joint-fit-transform", "fit(Xa+Xb).transform is not the token counts"))
+    # second merge with the same left operand
+    if "c2_exc" in o:
+        fails.append(_F("add.second-merge.raises", f"a + a_sub (after a + b) raises {o['c2_exc']}"))
+    elif "c2" in o:
+        c2, sub = o["c2"], o["c2_sub"]
+        voc2 = {t for d in Xa for t in d}
+        lab2 = [l for l, _ in c2["col"]]
+        exp2 = [dict(Counter(d)) for d in Xa + sub]
+        if set(lab2) != voc2 or len(lab2) != len(voc2):
+            fails.append(_F("add.second-merge.columns", f"a + a_sub after a + b: columns {sorted(map(str, lab2))}, tokens of a's corpus {sorted(voc2)}"))
+        elif c2["train"]["shape"] != [len(Xa) + len(sub), len(voc2)] or _by_label(c2, c2["train"]) != exp2:
+            fails.append(_F("add.second-merge.train-matrix", f"a + a_sub after a + b: {_by_label(c2, c2['train'])} expected {exp2}"))
     return fails
 
 
